@@ -103,13 +103,22 @@ func c13Scenario(a *Alpha, ns NamedSkel, focus []string, elems int) mc.Scenario 
 			return out
 		}
 		// resulting values: masked ZZextra (Parse starts from a zero destination, never writes it)
-		vv, pv := stripExtra(canonValue(rv.Dest.Elem())), stripExtra(canonValue(rr.Dest.Elem()))
+		vv, pv := stripExtra(canonPlain(rv.Dest.Elem())), stripExtra(canonPlain(rr.Dest.Elem()))
 		if vv != pv {
 			note()
 			out.Viol = append(out.Viol, &mc.Violation{Key: "C13:values", What: "Validate and Parse leave different values", Expected: "validate: " + vv, Observed: "parse: " + pv})
 		}
 		return out
 	}
+}
+
+// canonPlain renders values only: Parse allocates every pointee afresh, so sharing between pointers of the validated
+// value is not something the two modes can agree on; the values they leave are.
+func canonPlain(v reflect.Value) string {
+	c := zh.NewCanon(false)
+	c.NoIdentity = true
+	c.Val(v, 0)
+	return c.String()
 }
 
 func diffKey4(a, b []string) string {
